@@ -270,3 +270,33 @@ class Intervals:
                 return "unreachable"
             st = self.at_elem[p["id"]]
         return self.ev(expr, st)
+
+
+def fixed_array_findings(fn, g=None):
+    """(subscript node, array length, proven index interval) for every subscript of an array with a constant length
+    (member or local) whose index interval is *proven from the control flow* (not merely the range of its type)
+    and reaches the array length.  Also returns the number of subscripts examined."""
+    import re
+    from . import cfg as cfgm
+    from .ir import kids as _kids, strip_casts as _sc
+    cands = []
+    for z in fn.nodes():
+        if z["k"] != "ArraySubscriptExpr":
+            continue
+        b = _sc(_kids(z)[0])
+        m = re.search(r"\[(\d+)\]$", (b.get("ty") or "").strip())
+        if m:
+            cands.append((z, int(m.group(1))))
+    if not cands:
+        return [], 0
+    iv = Intervals(fn, g or cfgm.CFG(fn))
+    out = []
+    for z, n in cands:
+        idx = _kids(z)[1]
+        r = iv.range_at(idx)
+        if r in (None, "unreachable") or r[1] == INF or r[1] < n:
+            continue
+        if iv.ev(idx, {}) == r:
+            continue          # nothing but the type's own range: a data value, not decided here
+        out.append((z, n, r))
+    return out, len(cands)
